@@ -120,6 +120,10 @@ enum Op {
     AYield,
     BlockOn(usize),
     IsFinished(usize),
+    TlsWith(usize, u64),
+    ThreadId,
+    Scope(usize, usize),
+    ScopeSpawn(usize, usize),
 }
 
 #[derive(Clone, Copy, PartialEq, Eq)]
@@ -128,6 +132,106 @@ enum Kind {
     Closure,
     Task,
     BlockOn,
+    Dtor,
+    Scope,
+}
+
+/// A thread-local value of the harness: a counter whose destructor logs its final value and runs the body the
+/// key's object names.  Four static keys; the i-th `k` object of a program is static key i.
+struct TlsVal {
+    slot: usize,
+    val: std::cell::Cell<u64>,
+    /// the program and objects of the execution the value belongs to (its destructor runs a body of the program)
+    ctx: Option<(Arc<Prog>, Arc<Vec<Obj>>)>,
+}
+
+thread_local! {
+    /// the program and objects of the execution in progress (set by `start_exec`)
+    static CUR: std::cell::RefCell<Option<(Arc<Prog>, std::sync::Weak<Vec<Obj>>)>> = const { std::cell::RefCell::new(None) };
+    /// names given at spawn, by task id
+    static NAMES: std::cell::RefCell<std::collections::HashMap<usize, Option<String>>> = std::cell::RefCell::new(Default::default());
+    /// live `&Scope` of the scopes in progress, by (task id, scope object)
+    static SCOPES: std::cell::RefCell<std::collections::HashMap<(usize, usize), usize>> = std::cell::RefCell::new(Default::default());
+    /// set by the initialiser of a thread-local value
+    static TLS_INIT: std::cell::Cell<bool> = const { std::cell::Cell::new(false) };
+}
+
+impl TlsVal {
+    fn new(slot: usize) -> Self {
+        let ctx = CUR.with(|c| {
+            let c = c.borrow();
+            let (p, o) = c.as_ref().expect("vharness: no program");
+            o.upgrade().map(|o| (p.clone(), o))
+        });
+        let init = ctx.as_ref().expect("vharness: no objects").0.key_init(slot);
+        TLS_INIT.with(|f| f.set(true));
+        TlsVal { slot, val: std::cell::Cell::new(init), ctx }
+    }
+}
+
+impl Drop for TlsVal {
+    fn drop(&mut self) {
+        // values of tasks that never finished are dropped by the clean-up of the execution: nothing to log there
+        let live = shuttle_engine::runtime::execution::ExecutionState::try_with(|s| !s.is_finished()).unwrap_or(false);
+        if !live {
+            return;
+        }
+        // (CUR only holds a weak reference to the objects, so that nothing of an execution outlives it)
+        let Some((p, objs)) = self.ctx.take() else { return };
+        let Some(&key) = p.key_objs.get(self.slot) else { return };
+        log_op(39, &[key as u64, self.val.get()]);
+        if let Some(d) = p.key_dtor(self.slot) {
+            drive_ready(run_ops(p.clone(), objs.clone(), d, Kind::Dtor));
+        }
+    }
+}
+
+shuttle::thread_local! {
+    static K0: TlsVal = TlsVal::new(0);
+    static K1: TlsVal = TlsVal::new(1);
+    static K2: TlsVal = TlsVal::new(2);
+    static K3: TlsVal = TlsVal::new(3);
+}
+
+fn tls_key(slot: usize) -> &'static shuttle::thread::LocalKey<TlsVal> {
+    match slot {
+        0 => &K0,
+        1 => &K1,
+        2 => &K2,
+        3 => &K3,
+        _ => panic!("vharness: too many thread-local keys"),
+    }
+}
+
+fn start_exec(p: &Arc<Prog>) -> Arc<Vec<Obj>> {
+    let objs = Arc::new(make_objs(&p.obj_specs));
+    CUR.with(|c| *c.borrow_mut() = Some((p.clone(), Arc::downgrade(&objs))));
+    NAMES.with(|n| {
+        let mut n = n.borrow_mut();
+        n.clear();
+        n.insert(0, Some("main-thread".to_string()));
+    });
+    SCOPES.with(|s| s.borrow_mut().clear());
+    objs
+}
+
+enum AnyHandle {
+    Plain(thread::JoinHandle<u64>),
+    Scoped(thread::ScopedJoinHandle<'static, u64>),
+}
+impl AnyHandle {
+    fn thread(&self) -> &thread::Thread {
+        match self {
+            AnyHandle::Plain(h) => h.thread(),
+            AnyHandle::Scoped(h) => h.thread(),
+        }
+    }
+    fn join(self) -> std::thread::Result<u64> {
+        match self {
+            AnyHandle::Plain(h) => h.join(),
+            AnyHandle::Scoped(h) => h.join(),
+        }
+    }
 }
 
 /// Runs a future that is known never to be Pending (a thread body: its awaits are block_on calls).
@@ -184,11 +288,40 @@ impl Guard<'_> {
 struct Prog {
     bodies: Vec<Vec<Op>>,
     obj_specs: Vec<String>,
+    key_objs: Vec<usize>,
+}
+
+impl Prog {
+    fn new(bodies: Vec<Vec<Op>>, obj_specs: Vec<String>) -> Prog {
+        let key_objs = obj_specs.iter().enumerate().filter(|(_, w)| w.starts_with('k')).map(|(i, _)| i).collect();
+        Prog { bodies, obj_specs, key_objs }
+    }
+    fn key_spec(&self, slot: usize) -> (u64, Option<usize>) {
+        let w = &self.obj_specs[self.key_objs[slot]];
+        let parts: Vec<&str> = w[1..].split(':').collect();
+        (parts[0].parse().unwrap(), if parts[1] == "-" { None } else { Some(parts[1].parse().unwrap()) })
+    }
+    fn key_init(&self, slot: usize) -> u64 {
+        self.key_spec(slot).0
+    }
+    fn key_dtor(&self, slot: usize) -> Option<usize> {
+        self.key_spec(slot).1
+    }
 }
 
 fn parse_op(w: &str) -> Op {
     let num = |k: usize| w[k..].parse::<usize>().unwrap();
     match &w[..2.min(w.len())] {
+        "lw" => {
+            let parts: Vec<&str> = w[2..].split('.').collect();
+            Op::TlsWith(parts[0].parse().unwrap(), parts[1].parse().unwrap())
+        }
+        "id" => Op::ThreadId,
+        "zc" | "zs" => {
+            let parts: Vec<&str> = w[2..].split('.').collect();
+            let (z, b) = (parts[0].parse().unwrap(), parts[1].parse().unwrap());
+            if &w[..2] == "zc" { Op::Scope(z, b) } else { Op::ScopeSpawn(z, b) }
+        }
         "sp" => Op::Spawn(num(2)),
         "jn" => Op::Join(num(2)),
         "yd" => Op::Yield,
@@ -293,7 +426,7 @@ fn make_objs(specs: &[String]) -> Vec<Obj> {
                     rx: std::cell::UnsafeCell::new(Some(rx)),
                 })
             }
-            b'e' => Obj::Placeholder,
+            b'e' | b'k' | b'z' => Obj::Placeholder,
             b'b' => Obj::Barrier(shuttle::sync::Barrier::new(w[1..].parse().unwrap())),
             b'o' => Obj::Once(shuttle::sync::Once::new()),
             b's' => {
@@ -329,8 +462,10 @@ fn lock_code<G, P>(r: Result<G, std::sync::PoisonError<P>>, unwrap: impl FnOnce(
     }
 }
 
-fn run_body(p: Arc<Prog>, objs: Arc<Vec<Obj>>, b: usize) {
+fn run_body(p: Arc<Prog>, objs: Arc<Vec<Obj>>, b: usize) -> u64 {
     drive_ready(run_ops(p, objs, b, Kind::Thread));
+    // the value handed to the joiner: a function of the thread's own id
+    1000 + me() as u64
 }
 
 fn run_ops(p: Arc<Prog>, objs: Arc<Vec<Obj>>, b: usize, kind: Kind) -> std::pin::Pin<Box<dyn std::future::Future<Output = u64>>> {
@@ -356,7 +491,7 @@ async fn run_ops_inner(p: Arc<Prog>, objs: Arc<Vec<Obj>>, b: usize, kind: Kind) 
     }
     let mut guards_holder = Guards(Vec::new());
     let guards = &mut guards_holder.0;
-    let mut handles: Vec<Option<thread::JoinHandle<()>>> = Vec::new();
+    let mut handles: Vec<Option<AnyHandle>> = Vec::new();
     let mut threads: Vec<thread::Thread> = Vec::new();
     let ops = p.bodies.get(b).cloned().unwrap_or_default();
     for op in ops {
@@ -364,17 +499,73 @@ async fn run_ops_inner(p: Arc<Prog>, objs: Arc<Vec<Obj>>, b: usize, kind: Kind) 
         match op.clone() {
             Op::Spawn(j) => {
                 let (p2, o2) = (p.clone(), objs.clone());
-                let h = thread::spawn(move || run_body(p2, o2, j));
+                // odd bodies are spawned through a Builder with a name
+                let name = if j % 2 == 1 { Some(format!("b{j}")) } else { None };
+                let h = match &name {
+                    Some(n) => thread::Builder::new().name(n.clone()).spawn(move || run_body(p2, o2, j)).unwrap(),
+                    None => thread::spawn(move || run_body(p2, o2, j)),
+                };
                 let tid: usize = h.thread().id().into();
+                assert_eq!(h.thread().name().map(|s| s.to_string()), name, "vharness: JoinHandle::thread().name()");
+                NAMES.with(|n| n.borrow_mut().insert(tid, name));
                 threads.push(h.thread().clone());
-                handles.push(Some(h));
+                handles.push(Some(AnyHandle::Plain(h)));
                 log_op(1, &[tid as u64]);
             }
             Op::Join(h) => {
                 let jh = handles.get_mut(h).and_then(|x| x.take()).expect("vharness: bad handle");
                 let tid: usize = jh.thread().id().into();
-                jh.join().unwrap();
-                log_op(2, &[tid as u64]);
+                let v = jh.join().unwrap();
+                log_op(2, &[tid as u64, v]);
+            }
+            Op::TlsWith(key, add) => {
+                let slot = p.key_objs.iter().position(|&k| k == key).expect("vharness: not a key");
+                TLS_INIT.with(|f| f.set(false));
+                let r = tls_key(slot).try_with(|c| {
+                    let old = c.val.get();
+                    c.val.set(old.wrapping_add(add));
+                    old
+                });
+                match r {
+                    Ok(old) => {
+                        // status 1 = the initialiser ran during this access
+                        let first = TLS_INIT.with(|f| f.get());
+                        log_op(38, &[key as u64, first as u64, old]);
+                    }
+                    Err(_) => log_op(38, &[key as u64, 2, 0]),
+                }
+            }
+            Op::ThreadId => {
+                let c = thread::current();
+                let id: usize = c.id().into();
+                let expected = NAMES.with(|n| n.borrow().get(&me()).cloned()).unwrap_or(None);
+                let ok = c.name().map(|s| s.to_string()) == expected;
+                log_op(40, &[id as u64, ok as u64]);
+            }
+            Op::Scope(z, j) => {
+                let (p2, o2) = (p.clone(), objs.clone());
+                let owner = me();
+                thread::scope(|s| {
+                    // SAFETY: the pointer is used only by ScopeSpawn operations of the body run inside this closure
+                    let addr = s as *const thread::Scope<'_, '_> as usize;
+                    SCOPES.with(|m| m.borrow_mut().insert((owner, z), addr));
+                    log_op(41, &[z as u64]);
+                    drive_ready(run_ops(p2, o2, j, Kind::Scope));
+                    SCOPES.with(|m| m.borrow_mut().remove(&(owner, z)));
+                });
+                log_op(41, &[]);
+            }
+            Op::ScopeSpawn(z, j) => {
+                let addr = SCOPES.with(|m| m.borrow().get(&(me(), z)).copied()).expect("vharness: no scope");
+                // SAFETY: see Op::Scope; the closure only captures Arcs
+                let s: &'static thread::Scope<'static, 'static> = unsafe { &*(addr as *const thread::Scope<'static, 'static>) };
+                let (p2, o2) = (p.clone(), objs.clone());
+                let h = s.spawn(move || run_body(p2, o2, j));
+                let tid: usize = h.thread().id().into();
+                NAMES.with(|n| n.borrow_mut().insert(tid, None));
+                threads.push(h.thread().clone());
+                handles.push(Some(AnyHandle::Scoped(h)));
+                log_op(1, &[tid as u64]);
             }
             Op::Yield => {
                 thread::yield_now();
@@ -819,13 +1010,13 @@ fn parse_config(ms: &str) -> Option<Config> {
 }
 
 fn parse_prog(objs: &str, bodies: &str) -> Arc<Prog> {
-    Arc::new(Prog {
-        bodies: bodies
+    Arc::new(Prog::new(
+        bodies
             .split('|')
             .map(|b| crate::split_list(b, ';').iter().map(|w| parse_op(w)).collect())
             .collect(),
-        obj_specs: crate::split_list(objs, ',').iter().map(|s| s.to_string()).collect(),
-    })
+        crate::split_list(objs, ',').iter().map(|s| s.to_string()).collect(),
+    ))
 }
 
 /// progdfs <ms> <maxiter|-> <objs> <bodies>: the real DfsScheduler under the real Runner
@@ -847,7 +1038,7 @@ pub fn run_dfs(words: &[&str]) -> String {
     let p2 = prog.clone();
     let res = catch_unwind(AssertUnwindSafe(|| {
         Runner::new(sched, config).run(move || {
-            let objs = Arc::new(make_objs(&p2.obj_specs));
+            let objs = start_exec(&p2);
             run_body(p2.clone(), objs, 0);
         })
     }));
@@ -917,7 +1108,7 @@ fn run_recorded<S: Scheduler + 'static>(sched: S, config: Config, prog: Arc<Prog
     let p2 = prog.clone();
     let res = catch_unwind(AssertUnwindSafe(|| {
         Runner::new(rec, config).run(move || {
-            let objs = Arc::new(make_objs(&p2.obj_specs));
+            let objs = start_exec(&p2);
             run_body(p2.clone(), objs, 0);
         })
     }));
@@ -1112,7 +1303,7 @@ pub fn run_nondet(words: &[&str]) -> String {
     let p2 = prog.clone();
     let res = catch_unwind(AssertUnwindSafe(|| {
         Runner::new(sched, config).run(move || {
-            let objs = Arc::new(make_objs(&p2.obj_specs));
+            let objs = start_exec(&p2);
             run_body(p2.clone(), objs, 0);
         })
     }));
@@ -1157,7 +1348,7 @@ pub fn run_with_persistence(words: &[&str], persist: &str, dir: &str) -> String 
     let p2 = prog.clone();
     let res = catch_unwind(AssertUnwindSafe(|| {
         Runner::new(sched, config).run(move || {
-            let objs = Arc::new(make_objs(&p2.obj_specs));
+            let objs = start_exec(&p2);
             run_body(p2.clone(), objs, 0);
         })
     }));
@@ -1286,13 +1477,7 @@ pub fn run(words: &[&str]) -> String {
         .iter()
         .map(|w| if *w == "x" { None } else { Some(w.parse().unwrap()) })
         .collect();
-    let prog = Arc::new(Prog {
-        bodies: bodies
-            .split('|')
-            .map(|b| crate::split_list(b, ';').iter().map(|w| parse_op(w)).collect())
-            .collect(),
-        obj_specs: crate::split_list(objs, ',').iter().map(|s| s.to_string()).collect(),
-    });
+    let prog = parse_prog(objs, bodies);
     let sched = Scripted {
         script,
         pos: 0,
@@ -1304,7 +1489,7 @@ pub fn run(words: &[&str]) -> String {
     let p2 = prog.clone();
     let res = catch_unwind(AssertUnwindSafe(|| {
         Runner::new(sched, config).run(move || {
-            let objs = Arc::new(make_objs(&p2.obj_specs));
+            let objs = start_exec(&p2);
             run_body(p2.clone(), objs, 0);
         })
     }));
